@@ -52,7 +52,8 @@ PROPS['C16'] = dict(
          'implementation\'s answers. non-trivial = node has a repeated slot or a binder; distinct = by hash of the case line',
     trusted_base=['modelled, not verified: payload FromStr/Display impls (u32, i64, bool, char, Symbol), VecSet ordering'],
     assumptions=COMMON_ASSUME + ['the derive macro is exercised through seven concrete define_language! instances built from /repo/slotted-egraphs-derive (patched in)'],
-    pending_theorems=['weakShape_apply (under NoCapture)', 'weakShape_eq_iff (converse of weakShape_rename)', 'bijection component of weakShape_rename (the states are proved to agree along the renaming: weakShape_rename_state)'],
+    pending_theorems=['converse of weakShape_rename for NON-hygienic nodes (a name bound twice, or bound and free): proved is that both nodes are renamings of the common shape (same_shape_common_skeleton) and, for hygienic nodes, the full equivalence shape_eq_iff_renamed; a scoped alpha-equivalence relation is not formalised',
+                      'bijection component of weakShape_rename is proved in Proofs/LookupEquiv.lean (weakShape_rename_bij) for globally injective renamings'],
 )
 
 PROPS['C18'] = dict(
@@ -86,7 +87,7 @@ PROPS['C10'] = dict(
          'non-trivial = generated group is neither trivial nor the full symmetric group; distinct = by hash of the case line',
     trusted_base=['modelled, not verified: FxHashSet/FxHashMap iteration order (model: list order; all compared observables are order-independent)'],
     assumptions=COMMON_ASSUME + ['Group<Perm> is exercised directly (hook) here; through EGraph unions under C01/C02'],
-    pending_theorems=['leaf_eq_iff (EGraph::eq on a leaf class = membership; exercised by C01/C02)', 'restriction of a group to non-redundant slots (shrink_slots; exercised by C02)'],
+    pending_theorems=['restriction of a group to non-redundant slots (shrink_slots; exercised by C02)'],
 )
 
 EG_RULE = ('corr.spec.eq: histories over the main language (lam/app/var/let/add/mul/sum, multi-slot leaves f2 f3 f4 g1 g2 g3, '
@@ -102,7 +103,7 @@ EG_TRUST = ['NOT modelled (judged per run only): add_internal, union_internal/un
             'determine_self_symmetries, handle_congruence — no theorem quantifies over all histories of the implementation',
             'oracle completeness is not proved (a derivation may need names or terms outside the finite universe); '
             '"sound"-direction differences are re-judged with a larger pool before being reported',
-            'term text encoding / LN conversion (Term.close) on the Lean side, RecExpr construction on the Rust side']
+            'term text encoding on the Lean side, RecExpr construction on the Rust side; the LN conversion Term.close is proved meaning-preserving for the model algebra (C03 close_preserves_meaning) but its faithfulness to alpha-equivalence in the Cong spec is by construction only']
 
 PROPS['C01'] = dict(
     level='translation_validation',
@@ -205,7 +206,11 @@ PROPS['C08'] = dict(
          'operation, under catch_unwind: EGraph::check(); every e-node listed for a live class looks up to that class; no shape occurs '
          'in two classes; every e-node mentions all slots of its class; the identity invocation of a live class is canonical; find is '
          'idempotent on all tracked handles. At the end the state is dumped and judged by the Lean checker checkInv, and the read-only '
-         'functions are compared with the snapshot model (' + SNAP_RULE + '). Long histories (hist suite) run in the checks build too. '
+         'functions are compared with the snapshot model (' + SNAP_RULE + '). Path compression: right after the dump a random sequence of ids '
+         '(every id, shuffled, with repeats) is resolved through the public find_applied_id and the union-find table the implementation '
+         'ends with is compared entry by entry with the write-backs of the Lean model (Snap.compressAll), which is proved to preserve '
+         'every lookup (findW_spec, compress_preserves_find); a quarter of the histories are tournament-style chains of unions of small '
+         'classes. Long histories (hist suite) run in the checks build too. '
          'non-trivial = the state has a non-trivial group or a dead class / the history logged shrink or addsym events',
     trusted_base=EG_TRUST + ['panic-freedom of the mutators is established per run only (catch_unwind), never by theorem'],
     assumptions=COMMON_ASSUME + ['rewriting and extraction sequences are exercised by the C03/C06/C15 suites; their panics are reported there'],
@@ -235,7 +240,7 @@ PROPS['C03'] = dict(
             dict(name='rw', variant='checks', shrink=False, quick=dict(count=400, timeout=900), thorough=dict(count=8000, timeout=3000))],
     rule='corr.eval: 1-2 start terms over the arithmetic fragment of the main language (add, mul, numbers, symbols, var, sum $x, '
          'let $x, h, k; depth 2-3; slots occur only through (var $x), which is what makes b[(var $x) := t] meaningful), a random '
-         'subset of 2-8 rules of the 24-rule pool proved valid in Lean, 1-4 apply_rewrites iterations within a node budget, with '
+         'subset of 2-8 rules of the 30-rule pool proved valid in Lean, 1-4 apply_rewrites iterations within a node budget, with '
          'SynExprSubst (2/3) or ExtractionSubst (1/3), side conditions either as closures or through the crate\'s slot_free_in/and '
          'helpers (1/2 each). Afterwards, per live class: every e-node with its children replaced by representative terms (built by the '
          'harness bottom-up from enodes(), binders renamed apart), plus the originally inserted term, is evaluated by the Lean model '
@@ -246,7 +251,7 @@ PROPS['C03'] = dict(
                              'scoping facts assumed by the validity theorems (Rule.implicit): a slot bound in the left pattern does not occur in a variable matched outside its scope; a slot bound only on the right occurs in no variable',
                              'groups whose terms nest more than 3 summations or exceed 120 nodes are skipped (evaluation cost 7^depth) and counted'],
     assumptions=COMMON_ASSUME + ['lam/app and multi-slot leaves are not part of the C03 fragment (no model for them / substitution form not meaningful)'],
-    pending_theorems=['instantiation lemma linking Rules.evalP (pattern semantics) to Eval.eval (term semantics): an instance of a valid rule holds as an equation between terms'],
+    pending_theorems=[],
 )
 
 PROPS['C15'] = dict(
